@@ -45,6 +45,16 @@ func c07Check(slots [ugNSlots]int) {
 		vassert(a.verdict[k] == 2, "an unexported package-level object that no identifier refers to is not reported: "+name)
 	}
 
+	// (a') every reference form declares only what it then uses, so nothing
+	// declared inside the exported (used) function may be reported: removing
+	// it would break the statement it belongs to. (Deletion below works at
+	// line granularity and would remove the whole statement.)
+	for k, v := range a.verdict {
+		if v == 2 && k.chunk >= 0 && ugSkeleton[k.chunk].name == "Exported" && k.line > 0 {
+			vassert(false, "an object declared and needed inside a used function is reported: "+k.name)
+		}
+	}
+
 	// (a) deletion safety
 	del := map[[2]int]bool{}
 	ndel := 0
